@@ -4,7 +4,7 @@ use super::*;
 
 pub fn contracts() -> Vec<Contract> {
     vec![
-        Contract { name: "c12_async_signature", function: "trait_codegen.rs::make_trait_fn_sig, sub_attributes.rs::{analyze_sub_attributes, contains_async_trait}, opt.rs::EntraitOpt::parse (?Send), entrait_trait/mod.rs::gen_impl_delegation_trait_defs", props: &["C12", "C14"], run: c12 },
+        Contract { name: "c12_async_signature", function: "trait_codegen.rs::make_trait_fn_sig, sub_attributes.rs::{analyze_sub_attributes, contains_async_trait}, opt.rs::EntraitOpt::parse (?Send), entrait_trait/mod.rs::gen_impl_delegation_trait_defs", props: &["C12", "C19"], run: c12 },
         Contract { name: "c03_signature_conversion", function: "signature/converter.rs::SignatureConverter::convert_fn_to_trait_fn, analyze_generics.rs::{deps_with_generics, find_deps_generic_bounds}", props: &["C03", "C01"], run: c03 },
     ]
 }
